@@ -4,6 +4,7 @@
 cd /verif
 names="$@"; [ -z "$names" ] && names=$(ls seeded)
 for n in $names; do
+  if grep -q '"status": "obsolete"' seeded/$n/meta.json; then echo "SKIP   $n (obsolete: $(python3 -c "import json;print(json.load(open('/verif/seeded/$n/meta.json'))['obsolete_reason'][:80])"))"; continue; fi
   read -r check func <<<"$(python3 - "$n" <<'PY'
 import json,re,sys
 m=json.load(open('/verif/seeded/%s/meta.json'%sys.argv[1]))
